@@ -74,6 +74,13 @@ func (r *EntityLocal) GetOrAddFeature(featureType model.FeatureTypeType, role mo
 	r.mux.Lock()
 	defer r.mux.Unlock()
 
+	// check again under the lock, another goroutine may have created the feature in the meantime
+	for _, f := range r.features {
+		if f.Type() == featureType && f.Role() == role {
+			return f
+		}
+	}
+
 	f := NewFeatureLocal(r.NextFeatureId(), r, featureType, role)
 
 	description := string(featureType)
